@@ -478,6 +478,11 @@ def _unit_gfortran(item):
         shutil.rmtree(root, ignore_errors=True)
 
 
+def _parity(uses):
+    """deterministic 0/1 per DAG (independent of exploration order): spreads W=2 / W=3 over the DAGs"""
+    return (sum(len(u) for u in uses) + sum(i * j for i, u in enumerate(uses) for j in u)) % 2
+
+
 def finish_order_classes(traces):
     """one representative (the first explored) per order of *finish* events"""
     reps = {}
@@ -515,7 +520,6 @@ def run(ctx):
     waited = 0
     real_items = []
     gf_items = []
-    n4 = 0
     samples = []
     for u, r in zip(units, results):
         for sig, case, det in r['viols']:
@@ -552,16 +556,14 @@ def run(ctx):
                     picks = tr                               # every distinct event order
                 elif ctx.quick:
                     # one event order per DAG on 4 files: the lexicographically last one, W alternating over the DAGs
-                    picks = [tr[-1]] if W == 2 + (n4 % 2) else []
+                    picks = [tr[-1]] if W == 2 + (_parity(u['uses'])) else []
                 else:
                     picks = finish_order_classes(tr)          # every order of finish events
                 for t in picks:
                     real_items.append(dict(uses=u['uses'], dev=None, seed=ctx.seed, W=W, trace=[list(e) for e in t],
                                            scratch=scratch))
-            if n == 4:
-                n4 += 1
             if n <= (3 if ctx.quick else 4):
-                gf_items.append(dict(uses=u['uses'], W=2 + (len(gf_items) % 2), seed=ctx.seed, scratch=scratch))
+                gf_items.append(dict(uses=u['uses'], W=2 + _parity(u['uses']), seed=ctx.seed, scratch=scratch))
     dev_skip = os.environ.get('VF_DEV_SKIP_REAL')      # development only: the run then ends as HARNESS-ERROR
     if dev_skip:
         print(f'DEV: explore {t_explore:.1f}s units={len(units)} schedules={schedules} traces={traces} states={states} '
@@ -603,7 +605,7 @@ def run(ctx):
                                         f'baseline trees of <= {full_nmax} files; must yield the same set of event orders'),
         conformance=dict(real_pool_schedules=len(real_items), gfortran_builds=len(gf_items),
                          selection=('every distinct event order for all baseline DAGs on <= 3 files; for the DAGs on 4 files '
-                                    + ('one event order per DAG (the lexicographically last, W alternating 2/3 over the DAGs)' if ctx.quick
+                                    + ('one event order per DAG (the lexicographically last; W = 2 or 3 by a parity of the edge set)' if ctx.quick
                                        else 'one event order per distinct order of finish events per (DAG, W)')
                                     + '; gfortran + nm: every baseline DAG on <= ' + ('3' if ctx.quick else '4') + ' files')),
         wall=dict(explore=round(t_explore, 1), real_pool=round(t_real, 1), gfortran=round(t_gf, 1)),
